@@ -7,7 +7,8 @@ property's own predicates on the implementation's outputs):
                 (incl. the Hessian-of-p term and a Jacobian that is NOT the model's) vs model; exact Taylor identities
                 f(v+h) = f v + <g,h> + 1/2 h'Hh and g(v+h) = g v + H h on the implementation's outputs; error branches.
   se_qt         set_from_standard_qtomography_option_data on the four tomography types, both parametrisations, outcome
-                counts 2..6, every weighting mode, fresh and reused objects, direct setter, generic and fast class:
+                counts 2..6, every weighting mode, fresh and reused objects, direct setter, re-used option objects (same
+                object / equal-but-distinct object, new / same data), generic and fast class:
                 (a) value/gradient/Hessian formulas at the object's own weights / cache;
                 (b) the property: the configured mode takes effect (value = formula with the weights the mode denotes for
                     THIS data, inverse certified exactly) for any outcome count, and fast = generic;
@@ -459,6 +460,7 @@ def chk_se_qt(ctx, case):
     G = WeightedProbabilityBasedSquaredError(nv)
     Fs = StandardQTomographyBasedWeightedProbabilityBasedSquaredError(nv)
     gopts = {}; fopts = {}            # option OBJECTS of this history by identity: steps with the same oid hand in the same object
+    last_data = None                  # data of the last configuration step
     w = quiet()
     try:
         for k, step in enumerate(case["steps"]):
@@ -468,6 +470,9 @@ def chk_se_qt(ctx, case):
             label = "%s-%s-%s%s" % (case["exp"].split("-")[0], MODES.get(mode, "setter"), "fresh" if k == 0 else "reused",
                                     "" if step.get("opt", "new") == "new" else "-%s-option-%s-data" % (step["opt"], step.get("dat", "new")))
             data = [(int(step["nd"][j]), np.array(step["q"][j * mm:(j + 1) * mm], dtype=np.float64)) for j in range(ns)]
+            data_changed = last_data is not None and last_data != (list(step["nd"]), list(step["q"]))
+            if mode != 5:
+                last_data = (list(step["nd"]), list(step["q"]))
             spec = spec_weights(m, ns, mm, step)
             if spec[0] == "err":
                 viol("WeightedProbabilityBasedSquaredError._set_weights_by_mode", "model-mismatch:certificate",
@@ -555,7 +560,7 @@ def chk_se_qt(ctx, case):
             ok_g = rel_close(g_val, sv, 1e-6) and vec_close(g_grad, sg, 1e-6) and vec_close(fl(g_hess), sh, 1e-6)
             if not ok_g:
                 unchanged = same(gw, prev_gw)               # the call left the weights as they were
-                if same_object and unchanged and mode in (1, 2, 3, 4):
+                if same_object and unchanged and (mode == 1 or (mode in (2, 3, 4) and data_changed)):
                     sig = "same-option-object-weights-not-recomputed-for-current-data"
                 elif mode == 0 and unchanged and gw is not None:
                     sig = "identity-mode-keeps-previous-weights"
@@ -1162,7 +1167,8 @@ def run(ctx):
     ctx.rule = ("seeded dyadic-rational inputs (floats exactly equal to the rationals the model receives): random forward models "
                 "A (ns*m x nv), offsets, variable points inside (all p > 0.05) and outside (some p <= 0, incl. exactly 0) the positive region, "
                 "empirical distributions counts/N with zero and sub-threshold entries, symmetric custom weight matrices / weight vectors, "
-                "all five accepted weighting modes, configuration sequences of length 1..3 on fresh and reused objects, outcome counts 2..6, "
+                "all five accepted weighting modes, configuration sequences of length 1..3 on fresh and reused objects with option OBJECTS re-used across "
+                "steps (same object + new data, same object + same data, equal-but-distinct objects, same object after a direct setter), outcome counts 2..6, "
                 "QST/POVMT/QPT/QMPT on one qubit with typical testers and k-outcome POVMs, both parametrisations; plus the histories of the Coq "
                 "witnesses of the before-fix _refuted theorems and a malformed stream (asymmetric / integer weights, negative p with validation, negative eps, wrong shapes). "
                 "non-trivial = all clipping decisions outside the 1e-12 band around their thresholds and at least 4 outcomes in total and 2 variables; "
